@@ -67,7 +67,7 @@ func (c Config) String() string {
 const (
 	bucket   = "ca-bucket"
 	certDirDefault = "certs"
-	rootPath = "root.crt"
+	rootPathDefault = "root.crt"
 )
 
 // Authority is one simulated certificate authority with its durable state. Every operation is
@@ -201,11 +201,11 @@ func (a *Authority) newProcess(faulty bool) (*process, error) {
 		p.ca, p.caI = a.MemCA, a.MemCA
 	case "gcsca":
 		ca := &gcsca.CertificateAuthority{Storage: a.storage(faulty), PrivateBucket: bucket,
-			SigningCertDirInGCS: certDir(a.R), RootPath: rootPath}
+			SigningCertDirInGCS: certDir(a.R), RootPath: rootPathOf(a.R)}
 		p.ca, p.caI = ca, ca
 	case "localca":
 		ca := &gcsca.CertificateAuthority{Storage: a.storage(faulty), PrivateBucket: bucket,
-			SigningCertDirInGCS: certDir(a.R), RootPath: rootPath}
+			SigningCertDirInGCS: certDir(a.R), RootPath: rootPathOf(a.R)}
 		p.ca, p.caI = &localca.T{CA: ca}, ca
 	default:
 		return nil, fmt.Errorf("unknown ca %q", a.Cfg.CA)
@@ -239,10 +239,13 @@ type RotArgs struct {
 // (run setting "cert-dir"; any spelling names the same directory).
 func certDir(r *core.Run) string { return r.Var("cert-dir", certDirDefault) }
 
+// rootPathOf is the object the operator named for the root certificate (run setting "root-path").
+func rootPathOf(r *core.Run) string { return r.Var("root-path", rootPathDefault) }
+
 func (a *Authority) caFlags() []string {
 	var out []string
 	if a.Cfg.CA == "gcsca" || a.Cfg.CA == "localca" {
-		out = append(out, "--bucket", bucket, "--cert_dir", certDir(a.R), "--root_path", rootPath)
+		out = append(out, "--bucket", bucket, "--cert_dir", certDir(a.R), "--root_path", rootPathOf(a.R))
 	}
 	if a.Cfg.CA == "localca" {
 		out = append(out, "--bucket_root", filepath.Join(a.Dir, "bucketroot"))
